@@ -147,6 +147,7 @@ func (l *listener) loop() {
 		go l.handle(conn)
 	}
 
+	verifPoint("lw.loop.closing")
 	// closing remaining conns in channel to release resources
 	go func() {
 		l.wg.Wait()
@@ -173,6 +174,7 @@ func (l *listener) handle(conn net.Conn) {
 	buf := bufPool.Get().([]byte)
 	buf = buf[:0]
 	defer bufPool.Put(buf)
+	defer verifBufRelease(buf)
 
 	cx := WrapConnection(conn, buf, l.logger)
 	cx.Context = context.WithValue(cx.Context, listenerCtxKey, l)
@@ -211,6 +213,7 @@ func (l *listener) pipeConnection(conn *Connection) error {
 	if val := conn.GetVar("tls_connection_states"); val != nil {
 		connectionStates = val.([]*tls.ConnectionState)
 	}
+	verifPoint("lw.pipe.send")
 	if len(connectionStates) > 0 {
 		l.connChan <- &tlsConnection{
 			Conn:      conn,
